@@ -19,9 +19,10 @@ func init() {
 				"(dirty) for every cached record field of appdb.AppDB, each saver's skip guard reads only flags that EVERY mutator of that field sets (otherwise a restarted process — whose flags start false — silently stops persisting the record); " +
 				"(reach) every saver of a field that block execution can mutate is called from Blockchain.Commit (InitChain-only fields: from InitChain); (keys) the saver and the loader of a record use the same key constant; " +
 				"(volatile) every non-persisted field of minter.Blockchain read on a consensus path is either rebuilt by initState/constructor, block-local (assigned in BeginBlock/EndBlock/Commit before use), or configuration; an unclassified field fails. " +
+				"(boot) the constructor rebuilds the state (initState) at start-up unconditionally or under a witness that InitChain sets to a non-zero value for every legal genesis — it does not (known finding: initial_height 1); " +
 				"NOT decided: that reloaded values equal the in-memory ones (order-book lists, stake caches), iavl behaviour.",
 			Assumptions: stdAssumptions,
-			Rules:       []string{"C09.dirty", "C09.reach", "C09.keys", "C09.volatile"},
+			Rules:       []string{"C09.dirty", "C09.reach", "C09.keys", "C09.volatile", "C09.dirtycover", "C09.attach", "C09.evict", "C09.boot"},
 		},
 		Run: runC09,
 	})
@@ -143,6 +144,7 @@ func runC09(c *core.Ctx) {
 	defer checkDirtyCover(c, "C09.dirtycover")
 	defer checkSymbolInfoAttach(c, "C09.attach")
 	defer checkEvict(c, "C09.evict")
+	defer checkBoot(c, "C09.boot")
 	f := loadAppDB(c)
 	if f == nil {
 		c.Unk("C09.dirty", "appdb.AppDB", token.NoPos, "type not found")
